@@ -25,6 +25,14 @@ func genPoolOp(r *Rng) *Op {
 			addFailure(r, op.Rd, 32)
 		}
 		op.NilRd = r.Chance(1, 2)
+		if r.Chance(1, 8) {
+			// the caller's reader panics (and the caller recovers): whatever
+			// the library had taken or locked must not stay that way
+			if op.Rd.FailAt == 0 {
+				op.Rd.FailAt = 1 + r.Intn(32)
+			}
+			op.Rd.FailKind, op.Rd.Recover = EPanic, false
+		}
 	case 1:
 		op.Fn = "NewKeyFromSeed"
 		if r.Chance(1, 6) {
@@ -79,6 +87,12 @@ func genPoolOp(r *Rng) *Op {
 		}
 		b.Seed = op.Seed
 		op = b
+		if op.Rd != nil && len(op.Entries) >= 4 && r.Chance(1, 10) {
+			if op.Rd.FailAt == 0 {
+				op.Rd.FailAt = 1 + r.Intn(16*len(op.Entries))
+			}
+			op.Rd.FailKind, op.Rd.Recover = EPanic, false
+		}
 	case 7:
 		op.Fn = []string{"Public", "Seed", "PrivEqual", "PubEqual"}[r.Intn(4)]
 		op.Other = r.Intn(9)
@@ -901,7 +915,9 @@ func runEpisode(ep *Episode, pool []*Op, refs []Ref, st *ConcStats, a *concArgs)
 					st.Fired["stall"]++
 				}
 			}
-			if o.Panic != "" && !o.Budget {
+			if o.Panic == devPanicMsg {
+				st.Fired["reader_panic"]++
+			} else if o.Panic != "" && !o.Budget {
 				st.Fired["documented_or_other_panic"]++
 			}
 			if (o.Fault || o.ArgModified) && viol == nil {
